@@ -177,6 +177,7 @@ class Scheduler:
         self.in_op = [False] * self.nthreads
         self.atomic = [0] * self.nthreads
         self.pgen_atomic = bool(plan['config'].get('pgen_atomic', False))
+        self.burst = int(plan['config'].get('burst', 0))
         self.outcomes = {}
         self.trace = []                  # (step, from, to, both_in_op)
         self.nontrivial_switches = 0
@@ -192,7 +193,9 @@ class Scheduler:
         elif self.generate:
             r = self.rng.random()
             q = max(1, int(self.rng.expovariate(1.0 / self.mean_q)))
-            if r < 0.1:
+            if r < 0.1 or self.spos < self.burst:
+                # lockstep burst at the start of a run: all threads creep through their first-use
+                # paths a line or two at a time (where cold-start races live)
                 q = self.rng.randint(1, 3)
             p = self.rng.randrange(8)
             self.switches.append([q, p])
@@ -465,7 +468,13 @@ def make_plan(seed, tier='quick'):
         rng.shuffle(perm)                    # the scheduled child runs the calls in another order
     cfg = {'quantum': rng.choice([3, 10, 30, 30, 100, 100, 300, 300, 1000, 3000]),
            'warm': versions if warm else [], 'first': rng.randrange(nthreads), 'sequential': sequential, 'perm': perm,
-           'rounds': 1 if sequential else rng.choice([1, 1, 2, 3]), 'pgen_atomic': rng.random() < 0.5}
+           'rounds': 1 if sequential else rng.choice([1, 1, 2, 3]), 'pgen_atomic': rng.random() < 0.5,
+           'burst': rng.choice([0, 0, 100, 400, 1500]) if not warm else 0}
+    if cfg['burst'] and not sequential and rng.random() < 0.5:
+        # ... with every thread starting on the same grammar
+        v0 = threads[0][0]['v']
+        for th in threads:
+            th[0]['v'] = v0
     return {'sim': 'threadsim', 'seed': seed, 'config': cfg, 'threads': threads, 'switches': [], 'more': []}
 
 
